@@ -1,12 +1,34 @@
 #!/bin/bash
-# usage: seed_on_repo.sh <seed-id> <property> [tier]   — the recorded procedure: apply to /repo, run the registered
-# command, undo straight afterwards.  Never run while another check is running.
-id=$1; prop=$2; tier=${3:-quick}
+# usage: seed_on_repo.sh <seed-id> [tier]   — the recorded procedure: apply the seeded patch to /repo itself
+# (git -C /repo apply), run the registered command of the seed's property, undo straight afterwards
+# (git -C /repo checkout -- .), and record the outcome in seeded/<id>/meta.json ("on_repo").
+# Never run while another check is running against /repo.
+id=$1; tier=${2:-quick}
 cd /verif
+prop=$(python3 -c "import json;print(json.load(open('seeded/$id/meta.json'))['property'])")
+cmd=$(python3 -c "
+import json
+m=json.load(open('MANIFEST.json'))
+c=[c for c in m['checks'] if c['property_id']=='$prop']
+print(c[0]['${tier}_cmd'] if c else '')")
+[ -z "$cmd" ] && { echo "$prop is not claimed"; exit 2; }
+[ -n "$(git -C /repo status --porcelain --untracked-files=no)" ] && { echo "/repo has uncommitted changes"; exit 2; }
 git -C /repo apply /verif/seeded/$id/patch.diff || exit 2
-python3 bsverif/run.py $prop --tier $tier --no-evidence > /verif/seeded/$id/check_$prop.log 2>&1
+t0=$(date +%s)
+BSVERIF_REPLAYS=/verif/seeded/$id/replays $cmd --no-evidence > /verif/seeded/$id/on_repo_$prop.log 2>&1
 rc=$?
+t1=$(date +%s)
 git -C /repo checkout -- .
-tail -5 /verif/seeded/$id/check_$prop.log
-echo "seed_on_repo $id $prop tier=$tier rc=$rc"
+python3 - "$id" "$prop" "$rc" "$cmd" "$((t1-t0))" <<'PY'
+import json,sys,re
+sid,prop,rc,cmd,secs=sys.argv[1],sys.argv[2],int(sys.argv[3]),sys.argv[4],int(sys.argv[5])
+p=f"/verif/seeded/{sid}/meta.json"; m=json.load(open(p))
+log=open(f"/verif/seeded/{sid}/on_repo_{prop}.log").read()
+m["on_repo"]={"procedure":"git -C /repo apply patch.diff; <registered quick command> --no-evidence; git -C /repo checkout -- .",
+  "cmd":cmd+" --no-evidence","exit":rc,"outcome":{0:"missed",1:"detected",2:"inconclusive"}.get(rc,"error"),"seconds":secs,
+  "violation_lines":re.findall(r"^VIOLATION .*$",log,re.M)[:4],
+  "replay_lines":[l.strip() for l in re.findall(r"^\s*replay: .*$",log,re.M)][:4]}
+json.dump(m,open(p,"w"),indent=1)
+print(sid,prop,m["on_repo"]["outcome"],secs,"s")
+PY
 exit $rc
